@@ -38,6 +38,33 @@ def ts_table(content, kind, window=WINDOW):
     return out
 
 
+def std_parser_crosscheck(drv, contents, window=WINDOW):
+    """ the Lean parser of the standard timestamp format (SkModel.StdTs, the matcher the
+    end-to-end C04 theorems are stated with) against Python's re + datetime on EVERY window of
+    the given byte strings.  -> (windows compared, timestamps found, windows outside the
+    model's ASCII domain).  A disagreement inside the domain is a defect of the model. """
+    from vh import core as _core
+    outs = drv.run([{'kind': 'stdts', 'W': window, 'bytes': list(c)} for c in contents])
+    nwin = nts = ood = 0
+    for c, o in zip(contents, outs):
+        want = {r[0]: (r[1], r[2]) for r in ts_table(c, 'std', window)}
+        # the Lean time line counts from ordinal day 0 (Civil.toSeconds), `secs` from 1970
+        got = {r[0]: r[1] - EPOCH.toordinal() * 86400 for r in o['model']}
+        nwin += len(c)
+        nts += len(want)
+        for off in set(want) | set(got):
+            w = want.get(off)
+            if w is not None and got.get(off) == w[0]:
+                continue
+            span = c[off:off + (w[1] if w else 40)]
+            if any(b >= 0x80 for b in span):
+                ood += 1                # Unicode digit / white space inside the timestamp
+                continue
+            raise _core.Infra(f"SkModel.StdTs disagrees with Python re/datetime at offset {off} "
+                              f"of {c[off:off + 40]!r}: lean={got.get(off)} python={w}")
+    return nwin, nts, ood
+
+
 def lf_positions(content):
     out, i = [], content.find(b'\n')
     while i != -1:
